@@ -19,6 +19,7 @@ import EaselModel.Shuffle.LawfulRat
 import EaselModel.Shuffle.MarkovRat
 import EaselModel.Shuffle.IeeeCarrier
 import EaselModel.Shuffle.MarkovIeee
+import EaselModel.Shuffle.ZeroRoll
 /-! # C18 — property theorems (statements + glue only; lemmas live in Shuffle/*.lean)
 
 Every theorem quantifies over every input and every generator state `r : Rng` (hence every seed and every history of
@@ -1007,6 +1008,35 @@ example : let t : Ieee gridRounding := CNum.div (CNum.ofNat 1) (CNum.ofNat 3)
     dchoose (CNum.div (CNum.ofNat 1) (CNum.ofNat 2)) [t, t, t] = some 1 := by decide +kernel
 /-- the law that was wrong for binary64: `-0.0 + 0.0` is `+0.0`, not `-0.0` (so `a + 0.0 = a` is not a law), while the comparison form holds -/
 example : Raw.add exactRounding (.zero true) (.zero false) = .zero false ∧ Raw.zero true ≠ Raw.zero false := by decide
+
+/-! ## roll exactly `0.0` (round 6b)
+`esl_random() = 0.0` (raw generator word 0) sits on the boundary of the scan's strict `<`: leading entries of probability zero must be
+skipped. The differential run forces this roll at EVERY draw of IID / Markov-0 / Markov-1 (`poke raw=0 n=620`, cases `zero-roll-*`)
+and the plug-in's monitor demands exactly the output these theorems describe. -/
+
+/-- over ℚ: non-negative entries, positive sum, roll `0` ⇒ the chooser returns the FIRST positive entry -/
+theorem dchoose_zero_roll_first_positive (p : List ℚ) (hp : ∀ q ∈ p, 0 ≤ q) (hs : 0 < p.sum) :
+    ∃ k, dchoose (0 : ℚ) p = some k ∧ (∀ j, j < k → ∀ q, p[j]? = some q → q = 0) ∧ ∃ q, p[k]? = some q ∧ 0 < q :=
+  dchoose_zero_roll p hp hs
+
+/-- in rounded arithmetic: the value of `esl_random()` for the raw word 0 is `+0.0`; leading `+0.0` / `-0.0` entries are skipped and
+    the first finite entry whose computed quotient by `norm` is positive is returned -/
+theorem dchoose_zero_roll_first_positive_ieee (ρ : Rounding) (zs : List (Ieee ρ)) (pk : Ieee ρ) (rest : List (Ieee ρ)) (s : ℚ)
+    (hz : ∀ z ∈ zs, IsZero ρ z) (hpk : pk.1 = .fin s)
+    (hlt : CNum.lt (CNum.zero : Ieee ρ) (CNum.div pk ((zs ++ pk :: rest).foldl CNum.add CNum.zero)) = true) :
+    dchoose (CNum.div (CNum.ofNat 0) (CNum.ofNat 4294967296) : Ieee ρ) (zs ++ pk :: rest) = some zs.length :=
+  dchoose_zero_roll_ieee ρ zs pk rest s hz hpk hlt
+
+/-- non-vacuity: `[0, 0, 1/4, 3/4]` over ℚ; `[+0, -0, 1/3, 1/3]` under the lossy `gridRounding` (roll 0 selects index 2) -/
+example : (∀ q ∈ ([0, 0, 1/4, 3/4] : List ℚ), 0 ≤ q) ∧ 0 < ([0, 0, 1/4, 3/4] : List ℚ).sum ∧ dchoose (0 : ℚ) [0, 0, 1/4, 3/4] = some 2 := by
+  refine ⟨?_, by norm_num, by decide +kernel⟩
+  intro q hq; simp at hq; rcases hq with h | h | h <;> rw [h] <;> norm_num
+example : let t : Ieee gridRounding := CNum.div (CNum.ofNat 1) (CNum.ofNat 3)
+    let nz : Ieee gridRounding := ⟨.zero true, trivial⟩
+    t.1 = .fin (1431655765 / 4294967296) ∧ IsZero gridRounding nz ∧
+    CNum.lt (CNum.zero : Ieee gridRounding) (CNum.div t (([CNum.zero, nz] ++ t :: [t]).foldl CNum.add CNum.zero)) = true ∧
+    dchoose (CNum.div (CNum.ofNat 0) (CNum.ofNat 4294967296) : Ieee gridRounding) ([CNum.zero, nz] ++ t :: [t]) = some 2 :=
+  ⟨by decide +kernel, ⟨true, rfl⟩, by decide +kernel, by decide +kernel⟩
 
 /-- non-vacuity: the rationals are a lawful number type, so the theorems above apply to the code read in exact arithmetic -/
 example : LawfulCNum ℚ := inferInstance
